@@ -85,6 +85,6 @@ def part_programs(part, n):
 
 def parts(tier, seed):
     if tier == "quick":
-        return [(f"programs-{i}", part_programs, {"n": 400})
-                for i in range(8)]
+        return [(f"programs-{i}", part_programs, {"n": 1000})
+                for i in range(10)]
     return [(f"programs-{i}", part_programs, {"n": 10000}) for i in range(12)]
